@@ -2,6 +2,7 @@ package e1
 
 import (
 	"fmt"
+	"math/rand"
 	"sort"
 	"strings"
 	"sync"
@@ -80,6 +81,34 @@ func mixedKey(k int) interface{} {
 	return int64(k / 5) // same number as case 1, another type
 }
 
+// Typed values: the same text as a string, behind a String, an Error or a Format method.
+type sVal struct{ s string }
+
+func (v sVal) String() string { return v.s }
+
+type eVal struct{ s string }
+
+func (v *eVal) Error() string { return v.s }
+
+type fVal struct{ s string }
+
+func (v fVal) Format(f fmt.State, c rune) { f.Write([]byte(v.s)) }
+
+func (p *Plan) val(s string) interface{} {
+	if !p.TypedVals {
+		return s
+	}
+	switch detsim.Hash64(s) % 4 {
+	case 1:
+		return sVal{s}
+	case 2:
+		return &eVal{s}
+	case 3:
+		return fVal{s}
+	}
+	return s
+}
+
 func (p *Plan) key(k int) interface{} {
 	if p.MixedKeys {
 		return mixedKey(k)
@@ -107,7 +136,7 @@ func exec(p *Plan, l *valid.LRUCache, rec *Rec) {
 		if rec.Op.Val == NilVal {
 			l.Store(p.key(rec.Op.Key), nil) // a nil value is a value like any other
 		} else {
-			l.Store(p.key(rec.Op.Key), rec.Op.Val)
+			l.Store(p.key(rec.Op.Key), p.val(rec.Op.Val))
 		}
 	case OpLoad:
 		v, ok := l.Load(p.key(rec.Op.Key))
@@ -196,6 +225,7 @@ func runFill(p *Plan, ch simsync.Chooser) *Outcome {
 
 // Run executes a plan under the given chooser and judges it.
 func Run(p *Plan, ch simsync.Chooser) *Outcome {
+	rand.Seed(1) // the global generator of math/rand restarts with every run: a library that draws from it replays
 	if p.Shape == "fill" {
 		return runFill(p, ch)
 	}
@@ -230,7 +260,7 @@ func Run(p *Plan, ch simsync.Chooser) *Outcome {
 	if p.Shape == "huge" {
 		// prefill, sequentially, before the clients start
 		for k := 0; k < p.Cap; k++ {
-			cache.Store(p.key(k), "p"+fmt.Sprint(k))
+			cache.Store(p.key(k), p.val("p"+fmt.Sprint(k)))
 		}
 	}
 	var shadow *valid.LRUCache
